@@ -143,6 +143,15 @@ def allReprsL (H : List UInt8 → List UInt8) : List Cell → List (List UInt8)
   | c :: cs => allReprs H c ++ allReprsL H cs
 end
 
+mutual
+/-- the cell and all cells below it -/
+def subcells : Cell → List Cell
+  | .mk ty mask bits refs => .mk ty mask bits refs :: subcellsL refs
+def subcellsL : List Cell → List Cell
+  | [] => []
+  | c :: cs => subcells c ++ subcellsL cs
+end
+
 /-- level of a cell -/
 def cellLevel (c : Cell) : Nat := level c.mask
 
